@@ -9,7 +9,12 @@ import (
 // splitmix64: every random choice of the harness derives from one state
 type rng struct{ s uint64 }
 
-func newRng(seed uint64) *rng { return &rng{s: seed*0x9E3779B97F4A7C15 + 0x1234567} }
+// the state is a HASH of the seed: with `seed*increment + c` the streams of seeds 1, 2, 3 were one stream shifted by one draw
+func newRng(seed uint64) *rng {
+	h := &rng{s: seed ^ 0x6a09e667f3bcc908}
+	a := h.u64()
+	return &rng{s: a ^ (h.u64() << 1)}
+}
 func (r *rng) u64() uint64 {
 	r.s += 0x9E3779B97F4A7C15
 	z := r.s
